@@ -6,7 +6,7 @@ from vlib import *
 TRUSTED_BASE = [
     "Coq 8.16.1 kernel (coqc full .vo builds; vm_compute used in reflective obligations; no native_compute); thorough tier: coqchk -o on the property files, Axioms: <none>",
     "axioms: none declared; Print Assumptions of every property theorem is compared with the allowlist (target: Closed under the global context)",
-    "translators gen/svx_grammar.py svx_keywords.py svx_wiring.py svx_statics.py svx_lexers.py (read /repo sources, emit coq/Gen/*.v); cross-checked by correspondence, fail closed",
+    "translators gen/svx_grammar.py svx_keywords.py svx_wiring.py svx_statics.py svx_lexers.py svx_prims.py (read /repo sources, emit coq/Gen/*.v); fail closed; the grammar and primitive translators are cross-checked by running what they emit (extracted Peg.run, Extract/ExtractPeg.v, ocaml_peg/vpeg.ml) against the real parser: whole trees must agree (method-call chains compared flattened)",
     "extraction: Require Extraction + ExtrOcamlBasic only (its Extract Inductive for bool, option, unit, list, prod, sumbool, sumor; no Extract Constant); OCaml 4.13.1, dune 2.9.3, ocaml/*.ml drivers",
     "correspondence harness /verif/harness (Rust, path deps on /repo, feature verif) and the Python driver/generators under /verif/gen",
     "modelled not verified: nom 7.1.3, nom_locate 4.2, nom-greedyerror 0.5, nom-packrat 0.7, nom-recursive 0.5.1, str-concat, std BTreeMap/HashMap/String/fs/Path, threads and thread_local!, rustc/LLVM",
